@@ -66,17 +66,19 @@ theorem fromSpec_inv {f32 : List Char → Option (List Char)} {ctx : Ctx} {sp : 
     cases h2
   rcases attempt_ok h with ⟨d, s1, h1, h2⟩ | ⟨d, s1, h1, h2⟩
   · dsimp only at h2
-    simp only [peekToken_bind] at h2
-    cases ht : e.toks[s1.pos]? with
-    | none => rw [ht] at h2; exact (hreset s1 h2).elim
+    simp only [getEnv_bind] at h2
+    obtain ⟨u, s2, h3, h4⟩ := bind_ok h2
+    simp only [peekToken_bind] at h4
+    cases ht : e.toks[s2.pos]? with
+    | none => rw [ht] at h4; exact (hreset s2 h4).elim
     | some t =>
-      rw [ht] at h2
-      dsimp only at h2
-      split at h2
-      · obtain ⟨h3, _⟩ := pure_ok h2
-        cases h3
+      rw [ht] at h4
+      dsimp only at h4
+      split at h4
+      · obtain ⟨h5, _⟩ := pure_ok h4
+        cases h5
         exact ⟨d, s, s1, h1, rfl⟩
-      · exact (hreset s1 h2).elim
+      · exact (hreset s2 h4).elim
   · exact (hreset s1 h2).elim
 
 theorem trySpecs_inv {f32 : List Char → Option (List Char)} {ctx : Ctx} : ∀ (specs : List Spec) (s : PState)
